@@ -79,6 +79,14 @@ func newPos(l *lookup, fileName, funcName string, line, column int) pos {
 	// return struct{}{}
 	fileNameIdx := l.Index("#" + fileName)
 	funcNameIdx := l.Index("#" + funcName)
+	// line and column have 16 bits each: beyond that they stay at the maximum instead of
+	// spilling into the neighbouring field (line 65536 used to select another function name)
+	if line > 0xffff {
+		line = 0xffff
+	}
+	if column > 0xffff {
+		column = 0xffff
+	}
 	return pos((fileNameIdx << 48) | (funcNameIdx << 32) | (line << 16) | column)
 }
 
